@@ -173,6 +173,14 @@ var hC10Table = []struct {
 	{types.FloatKindDouble, "1.00000000000000011103", false, "0x3FF0000000000001", 0},
 	{types.FloatKindDouble, "5.917e-40", false, "0x37C9C5ACEB678353", 0}, {types.FloatKindDouble, "7.27e-38", false, "0x3838BD102D09F4E7", 0},
 	{types.FloatKindDouble, "6.561e-38", false, "0x3836536FE47947D1", 0}, {types.FloatKindDouble, "2.91e-11", false, "0x3DBFFEEBFC8B81B5", 0},
+	// boundaries of the extended kinds: smallest and largest denormal (exponent
+	// field 0), smallest and largest normal, of either sign
+	{types.FloatKindX86_FP80, "0xK00000000000000000001", true, "", 2}, {types.FloatKindX86_FP80, "0xK00000000000000000002", true, "", 2},
+	{types.FloatKindX86_FP80, "0xK00007FFFFFFFFFFFFFFF", true, "", 2}, {types.FloatKindX86_FP80, "0xK80000000000000000001", true, "", 2},
+	{types.FloatKindX86_FP80, "0xK00018000000000000000", true, "", 2}, {types.FloatKindX86_FP80, "0xK7FFEFFFFFFFFFFFFFFFF", true, "", 2},
+	{types.FloatKindFP128, "0xL00000000000000010000000000000000", true, "", 2}, {types.FloatKindFP128, "0xLFFFFFFFFFFFFFFFF0000FFFFFFFFFFFF", true, "", 2},
+	{types.FloatKindFP128, "0xL00000000000000000001000000000000", true, "", 2}, {types.FloatKindFP128, "0xLFFFFFFFFFFFFFFFF7FFEFFFFFFFFFFFF", true, "", 2},
+	{types.FloatKindHalf, "0xH0001", true, "", 2}, {types.FloatKindHalf, "0xH03FF", true, "", 2}, {types.FloatKindHalf, "0xH0400", true, "", 2}, {types.FloatKindHalf, "0xHFBFF", true, "", 2},
 	{types.FloatKindDouble, "0.0", false, "", 0}, {types.FloatKindDouble, "-0.0", false, "", 0}, {types.FloatKindDouble, "1.0", false, "", 0},
 	{types.FloatKindDouble, "1000000.0", false, "", 0}, {types.FloatKindDouble, "1.0e22", false, "", 0}, {types.FloatKindDouble, "5.0e7", false, "", 0},
 	{types.FloatKindDouble, "0.1", false, "", 0}, {types.FloatKindDouble, "-2.5e-3", false, "", 0}, {types.FloatKindDouble, "1.5e300", false, "", 0},
